@@ -122,18 +122,19 @@ func mkUEdge(a, b kit.V3) uedge {
 
 // diag3 holds the diagnostics of a triangle soup computed straight from the definitions.
 type diag3 struct {
-	NeedsRepair  bool
-	MaxEdgeUse   int
-	Boundary     int              // edges used once
-	Singular     map[kit.V3]bool  // vertices whose incident triangles do not form one edge-connected family
-	Inconsistent map[dedge]bool   // directed edges traversed by two or more triangles
-	Orientable   bool             // meaningful only when MaxEdgeUse <= 2
-	Comp         []int            // edge-connected component id per face (faces sharing >= 2 vertices)
-	Side         []bool           // relative orientation class of each face inside its component (when Orientable)
-	NComp        int
-	V, E, F      int
-	Degenerate   bool // some face repeats a vertex
-	TwinFaces    bool // two faces with the same vertex set
+	NeedsRepair    bool
+	MaxEdgeUse     int
+	Boundary       int             // edges used once
+	Singular       map[kit.V3]bool // vertices whose incident triangles do not form one edge-connected family
+	SingularNoTwin map[kit.V3]bool // the same when two faces on the same three vertices do not count as edge neighbours
+	Inconsistent   map[dedge]bool  // directed edges traversed by two or more triangles
+	Orientable     bool            // meaningful only when MaxEdgeUse <= 2
+	Comp           []int           // edge-connected component id per face (faces sharing >= 2 vertices)
+	Side           []bool          // relative orientation class of each face inside its component (when Orientable)
+	NComp          int
+	V, E, F        int
+	Degenerate     bool // some face repeats a vertex
+	TwinFaces      bool // two faces with the same vertex set
 }
 
 type dsu struct {
@@ -172,7 +173,7 @@ func (d *dsu) union(i, j int, diff bool) bool {
 }
 
 func analyse3(tris []kit.Tri) *diag3 {
-	d := &diag3{Singular: map[kit.V3]bool{}, Inconsistent: map[dedge]bool{}, F: len(tris)}
+	d := &diag3{Singular: map[kit.V3]bool{}, SingularNoTwin: map[kit.V3]bool{}, Inconsistent: map[dedge]bool{}, F: len(tris)}
 	use := map[uedge][]int{}
 	duse := map[dedge]int{}
 	vt := map[kit.V3][]int{}
@@ -231,23 +232,29 @@ func analyse3(tris []kit.Tri) *diag3 {
 				ids = append(ids, f)
 			}
 		}
-		reached := map[int]bool{ids[0]: true}
-		stack := []int{ids[0]}
-		for len(stack) > 0 {
-			f := stack[len(stack)-1]
-			stack = stack[:len(stack)-1]
-			for _, g := range ids {
-				if reached[g] {
-					continue
-				}
-				if sharesEdgeAt(ts[f], ts[g], v) {
-					reached[g] = true
-					stack = append(stack, g)
+		for pass := 0; pass < 2; pass++ {
+			reached := map[int]bool{ids[0]: true}
+			stack := []int{ids[0]}
+			for len(stack) > 0 {
+				f := stack[len(stack)-1]
+				stack = stack[:len(stack)-1]
+				for _, g := range ids {
+					if reached[g] {
+						continue
+					}
+					if sharesEdgeAt(ts[f], ts[g], v) && (pass == 0 || !sameVertexSet(ts[f], ts[g])) {
+						reached[g] = true
+						stack = append(stack, g)
+					}
 				}
 			}
-		}
-		if len(reached) != len(ids) {
-			d.Singular[v] = true
+			if len(reached) != len(ids) {
+				if pass == 0 {
+					d.Singular[v] = true
+				} else {
+					d.SingularNoTwin[v] = true
+				}
+			}
 		}
 	}
 	// components and orientability by a parity union-find over the faces
@@ -297,6 +304,19 @@ func traverses(t kit.Tri, a, b kit.V3) bool {
 		}
 	}
 	return false
+}
+
+func sameVertexSet(s, t kit.Tri) bool {
+	n := 0
+	for _, a := range s {
+		for _, b := range t {
+			if a == b {
+				n++
+				break
+			}
+		}
+	}
+	return n == 3
 }
 
 // sharesEdgeAt: the two faces (both containing v) have a further vertex in common.
